@@ -98,12 +98,14 @@ def compose (vars : T → List Var) (P : Prims T) (c1 c2 : Contract T) (keep : L
       (Gen.list_union (Gen.list_diff all (withVars vars all I.intvars)) (Gen.list_diff og (withVars vars og I.intvars)))
       I.inputvars I.outputvars
 
-/-- `try: … except ValueError:` around a primitive: on failure keep `d`.  (`IncompatibleArgsError` is a
-    `ValueError` too, so every model error is caught, as in Python.) -/
-def orElse (r : Except Err (List T)) (d : List T) : List T :=
+/-- `try: … except ValueError:` around a primitive: on `ValueError` (or its subclass `IncompatibleArgsError`) keep `d`;
+    anything else — another Python exception, or the model-only `oracleStuck` — is not caught -/
+def orElse (r : Except Err (List T)) (d : List T) : Except Err (List T) :=
   match r with
-  | .ok x => x
-  | .error _ => d
+  | .ok x => .ok x
+  | .error .valueError => .ok d
+  | .error .incompatibleArgs => .ok d
+  | .error e => .error e
 
 /-- `IoContract.quotient_tactics` (`c` = self, the dividend; `c1` = other, the divisor) -/
 def quotient (vars : T → List Var) (P : Prims T) (c c1 : Contract T) (addl : List Var) (simp : Bool) (ord : List Nat) :
@@ -119,9 +121,13 @@ def quotient (vars : T → List Var) (P : Prims T) (c c1 : Contract T) (addl : L
   match P.elimRelax .qRelA a0 [] (Gen.list_union I.intvars I.outputvars) simp ord with
   | .error e => .error e
   | .ok asm =>
-  let g0 := orElse (P.elimRefine .qRefG1 c.g (Gen.list_union c1.g c1.a) I.intvars simp ord) c.g
+  match orElse (P.elimRefine .qRefG1 c.g (Gen.list_union c1.g c1.a) I.intvars simp ord) c.g with
+  | .error e => .error e
+  | .ok g0 =>
   let g1 := Gen.list_union g0 c1.a
-  let g2 := orElse (P.elimRefine .qRefG2 g1 c.a I.intvars simp ord) g1
+  match orElse (P.elimRefine .qRefG2 g1 c.a I.intvars simp ord) g1 with
+  | .error e => .error e
+  | .ok g2 =>
   if !(Gen.list_intersection (varsOf vars g2) I.intvars).isEmpty then .error .incompatibleArgs
   else mkContract vars P asm g2 I.inputvars I.outputvars
 
